@@ -62,6 +62,11 @@ type cTx struct {
 	CutInBody bool // endDisconnectMidData: where the connection breaks
 	NoReset   bool // no accepted recipient: go on with the next MAIL without DATA/RSET
 	EhloFails bool // endEhloMidTx: an early (connection-level) check refuses the repeated greeting
+	// Stray: one more command that does not belong to the transaction, sent
+	// before MAIL (StrayAt 0), after MAIL (1) or after the RCPTs (2)
+	Stray      string
+	StrayAt    int
+	StrayReply actors.Reply
 	Pause     bool // the client idles 6 s (longer than the limit time-out) before the body
 	Chunks    int  // 0: DATA; n>0: BDAT in n chunks
 	AuthAt    int  // 0: no AUTH in this transaction; 1 before MAIL, 2 after MAIL, 3 after the RCPTs
@@ -457,6 +462,14 @@ func (w *world) genClients() {
 			tx.CutInBody = s.T.Choose(st, 2) == 1
 			tx.NoReset = s.T.Choose(st, 3) == 0
 			tx.EhloFails = s.T.Choose(st, 2) == 0
+			if s.T.Choose(st, 4) == 0 {
+				tx.StrayAt = s.T.Choose(st, 3)
+				strays := []string{"VRFY someone", "HELP", "STARTTLS", "XFOO bar", "RCPT TO:<u1@a.example", "MAIL FROM:<second@origin.example", "EXPN list"}
+				if tx.StrayAt == 0 {
+					strays = append(strays, "DATA", "RCPT TO:<u1@a.example>", "MAIL FROM:<big@origin.example> SIZE=99999999999")
+				}
+				tx.Stray = strays[s.T.Choose(st, len(strays))]
+			}
 			tx.Pause = s.T.Choose(st, 6) == 0
 			if s.T.Choose(st, 3) == 0 {
 				tx.Chunks = 1 + s.T.Choose(st, 3)
@@ -509,6 +522,24 @@ func (w *world) runClient(c *client) {
 	}
 	stale := 0 // recipients of transactions abandoned by a repeated LHLO
 	for _, tx := range c.txs {
+		stray := func(at int) bool {
+			if tx.Stray == "" || tx.StrayAt != at {
+				return true
+			}
+			s.Stat("client_stray_command")
+			tx.StrayReply = cl.Cmd(tx.Stray)
+			if tx.StrayReply.Err != "" {
+				return false
+			}
+			if at == 0 && tx.StrayReply.OK() && strings.HasPrefix(tx.Stray, "MAIL") {
+				// (the oversized announcement was not refused: start over)
+				cl.Cmd("RSET")
+			}
+			return true
+		}
+		if !stray(0) {
+			return
+		}
 		if tx.AuthAt == 1 {
 			if tx.AuthReply = w.doAuth(cl, c.name, tx.AuthKind); tx.AuthReply.Err != "" {
 				return
@@ -520,6 +551,9 @@ func (w *world) runClient(c *client) {
 		}
 		tx.MailReply = cl.Cmd(mail)
 		if tx.MailReply.Err != "" {
+			return
+		}
+		if !stray(1) {
 			return
 		}
 		if tx.AuthAt == 2 {
@@ -534,6 +568,9 @@ func (w *world) runClient(c *client) {
 			if rr.Err != "" {
 				return
 			}
+		}
+		if !stray(2) {
+			return
 		}
 		if tx.AuthAt == 3 {
 			if tx.AuthReply = w.doAuth(cl, c.name, tx.AuthKind); tx.AuthReply.Err != "" {
@@ -1160,6 +1197,7 @@ func (w *world) oracleC16() {
 		for _, tx := range c.txs {
 			if !desynced {
 				checkAuth(tx.AuthKind, tx.AuthReply)
+				check("OTHER", false, tx.StrayReply)
 			}
 			if desynced {
 				// LMTP after a repeated LHLO mid-transaction: go-smtp still
